@@ -16,7 +16,8 @@
   test is and compares it with the corresponding model functions.
 -/
 import GraphiqModel.Proofs.Compare
-import GraphiqModel.Proofs.CompareRepairSound
+import GraphiqModel.Proofs.CompareRepairNorm
+import GraphiqModel.Proofs.CompareRepairStab
 namespace Graphiq.C15
 open Graphiq Graphiq.Export Graphiq.Compare
 
@@ -260,27 +261,54 @@ theorem repaired_matcher_rejects_the_witnesses :
 theorem iso2_answer_is_checked (g1 g2 : MG) (h : isoGraphs2 g1 g2 = true) :
     ∃ f, isoCheck2 g1.addControlTarget2 g2.addControlTarget2 f = true := isoGraphs2_witness g1 g2 h
 
-/-- full statement for the filter with the repaired comparison: a dropped circuit is, after unwrapping and identity
-    removal, a renaming of a kept one -/
-def dedup_iso2_statement : Prop :=
-  ∀ l : List Circuit, (∀ c ∈ l, WellFormed c) → ∀ x ∈ l, x ∈ removeRedundant2 l ∨
-    ∃ k ∈ removeRedundant2 l, ∃ π, RenamedBy π ⟨k.ne, k.np, k.nc, flat k.ops⟩ ⟨x.ne, x.np, x.nc, flat x.ops⟩
+/-- the DAG after `unwrap_nodes` and `remove_identity` (the copy `remove_redundant_circuits` compares) is again a family of
+    register paths, and the operations along the path of register `w` are the *executed* operations (`flat`: wrappers
+    expanded in application order, identities dropped) that touch `w` -/
+theorem normalised_dag_carries_the_flattened_circuit (c : Circuit) (h : WellFormed c) :
+    ∃ g, MG.build c = .ok g ∧ GraphInv (wiresN c.ne c.np c.nc) g.normalise (fun w => (flat c.ops).filter (touches w)) :=
+  let ⟨g, hb, hi, _⟩ := build_rep c (wellFormed_opOK c h)
+  ⟨g, hb, normalise_graphInv _ g c.ops hi⟩
 
-/-- **proved part** (`_partial`): the filter keeps a sub-list, and every dropped circuit was reported isomorphic (by the
-    repaired comparison, on the normalised DAGs) to a circuit that is kept.  Open: the DAG surgery of `unwrap_nodes` /
-    `remove_identity` (`MG.normalise`) keeps the register-path invariant with the flattened operation lists — then
-    `iso_sound` applies to the normalised pair.  The harness evaluates the full statement on every generated list. -/
-theorem dedup_iso2_partial (l : List Circuit) :
+/-- **soundness of the repaired comparison as the filters call it** (copy, `unwrap_nodes`, `remove_identity`,
+    `circuit_is_isomorphic`): reported isomorphic ⇒ the executed operations of the two circuits are renamings of each
+    other register by register, hence differ (after renaming) only by exchanges of neighbouring operations on disjoint
+    registers -/
+theorem iso_normalised_sound (c1 c2 : Circuit) (h1 : WellFormed c1) (h2 : WellFormed c2)
+    (h : isoNormalised2 c1 c2 = .ok true) :
+    ∃ π, RenamedBy π (flatC c1) (flatC c2) ∧ SwapEquiv ((flat c1.ops).map (renOp π)) (flat c2.ops) := by
+  obtain ⟨π, hπ⟩ := isoNorm2_sound c1 c2 (wellFormed_opOK c1 h1) (wellFormed_opOK c2 h2) h
+  exact ⟨π, hπ, hπ.swapEquiv (flat_opOK _ _ (wellFormed_opOK c1 h1)) (flat_opOK _ _ (wellFormed_opOK c2 h2))⟩
+
+/-- **reported isomorphic ⇒ the same compiled stabilizer state up to the renaming** — in C13's verified stabilizer
+    semantics (`Commute.appG`: stabilizer group of a valid tableau on `ne + np` qubits plus the unread measurement outcomes;
+    gates by C07's `specGate`, measurements by `specMeasure`; that operations on disjoint registers commute there is
+    `C13.stabilizer_ops_on_disjoint_registers_commute`): for either form of the repaired comparison (as `compare` calls it,
+    or as the filters call it after normalisation), running the renamed executed operations of the first circuit and
+    running the executed operations of the second from any state give the same state, for every assignment of outcomes
+    to the measuring operations.  `toSOp` (Proofs/CompareRepairStab.lean) is the translation of an executed operation of
+    this model into an operation of C13's compile sequence: same class, same registers. -/
+theorem iso_sound_same_stabilizer_state (c1 c2 : Circuit) (h1 : WellFormed c1) (h2 : WellFormed c2)
+    (h : circuitIsIsomorphic2 c1 c2 = .ok true ∨ isoNormalised2 c1 c2 = .ok true) :
+    ∃ π, RenamedBy π (flatC c1) (flatC c2) ∧ ∀ (ne np : Nat) (s : Commute.GSt ne np),
+      Wire.runSeq (Commute.appG ne np) (((flat c1.ops).map (renOp π)).map toSOp) s =
+        Wire.runSeq (Commute.appG ne np) ((flat c2.ops).map toSOp) s := by
+  have key : ∃ π, RenamedBy π (flatC c1) (flatC c2) := by
+    rcases h with h | h
+    · obtain ⟨π, hπ⟩ := iso_sound c1 c2 h1 h2 h
+      exact ⟨π, hπ.flat⟩
+    · obtain ⟨π, hπ, _⟩ := iso_normalised_sound c1 c2 h1 h2 h
+      exact ⟨π, hπ⟩
+  obtain ⟨π, hπ⟩ := key
+  refine ⟨π, hπ, fun ne np s => ?_⟩
+  exact (hπ.swapEquiv (flat_opOK _ _ (wellFormed_opOK c1 h1)) (flat_opOK _ _ (wellFormed_opOK c2 h2))).same_stab_state ne np s
+
+/-- **`remove_redundant_circuits` with the repaired comparison keeps every distinct circuit** (the second half of the
+    property, for the repaired function): the result is a sub-list of the input, and every circuit that is dropped is —
+    in its executed operations — a renaming, register by register, of a circuit that is kept -/
+theorem dedup_sound (l : List Circuit) (hl : ∀ c ∈ l, WellFormed c) :
     (removeRedundant2 l).Sublist l ∧
-    ∀ x ∈ l, x ∈ removeRedundant2 l ∨ ∃ k ∈ removeRedundant2 l, isoNormalised2 k x = .ok true := by
-  refine ⟨(removeRedundantWith_spec _ l).1, ?_⟩
-  intro x hx
-  rcases (removeRedundantWith_spec _ l).2 x hx with h | ⟨k, hk, hkx⟩
-  · exact Or.inl h
-  · refine Or.inr ⟨k, hk, ?_⟩
-    cases hr : isoNormalised2 k x with
-    | ok r => rw [hr] at hkx; simp only at hkx; rw [hkx]
-    | error e => rw [hr] at hkx; cases hkx
+    ∀ x ∈ l, x ∈ removeRedundant2 l ∨ ∃ k ∈ removeRedundant2 l, ∃ π, RenamedBy π (flatC k) (flatC x) :=
+  removeRedundant2_sound l (fun c hc => wellFormed_opOK c (hl c hc))
 
 /-! ## Non-vacuity -/
 
@@ -315,6 +343,7 @@ example : WellFormed witA ∧ WellFormed witB ∧ WellFormed d22A ∧ WellFormed
   decide +kernel
 example : circuitIsIsomorphic2 d22A d22A' = .ok true ∧ circuitIsIsomorphic2 d22A d22A = .ok true ∧
     isoNormalised2 demo demo' = .ok true := by decide +kernel
+example : removeRedundant2 [demo, demo', witA, witB, d22A, d22A'] = [demo, witA, witB, d22A] := by decide +kernel
 
 /-- `Rep0` / `Rep` are met by a real DAG: the demo circuit's -/
 example : ∃ g body, MG.build demo = .ok g ∧ Rep0 g (wiresN 1 1 1) body ∧ Rep g.addControlTarget2 (wiresN 1 1 1) body := by
